@@ -498,6 +498,25 @@ const LETTERS_HOSTILE: &[&str] = &["B", "L", "P", "C", "B3", "B0", "Bx", "X", "b
 /// Path string for a slider at (x,y). `avoid_cc`: never two consecutive explicit Catmull segments.
 pub fn path_string(r: &mut Rng, x: i64, y: i64, h: u8, max_pts: usize) -> String {
     let letters = if h >= 2 { LETTERS_HOSTILE } else { LETTERS };
+    if h >= 1 && r.chance(1, 40) {
+        // a perfect-curve segment through an almost collinear triple far from the slider: the determinant of
+        // the differences is a small integer while the circumcircle terms cancel in single precision
+        fn egcd(a: i64, b: i64) -> (i64, i64, i64) {
+            if b == 0 {
+                (a, 1, 0)
+            } else {
+                let (g, s, t) = egcd(b, a % b);
+                (g, t, s - (a / b) * t)
+            }
+        }
+        let far = |r: &mut Rng| if r.chance(1, 2) { r.range(60_000, 128_000) } else { -r.range(60_000, 128_000) };
+        let (fx, fy) = (far(r), far(r));
+        let (pp, qq) = (r.range(500, 1500), r.range(50, 300));
+        let (_, s, t) = egcd(pp, qq);
+        let m = 2 + r.below(2) as i64;
+        let k = [-3i64, -2, -1, 1, 2, 3][r.below(6)];
+        return format!("L|P|{fx}:{fy}|{}:{}|{}:{}", fx + pp, fy + qq, fx + m * pp - k * t, fy + m * qq + k * s);
+    }
     let mut p = String::from(*r.pick(letters));
     // occasionally a lone type token: a slider whose only control point is its position
     let n = if r.chance(1, 12) { 0 } else { 1 + r.below(max_pts.max(1)) };
